@@ -303,6 +303,26 @@ def unit_field_generated(ctx, m, n_pairs, n_minpoly):
 
 # ----------------------------------------------------------------------------- plumbing
 
+def unit_fuzz(ctx, runs):
+    """atheris campaign over (op, operands): polynomial ring ops and field mul/pow/inverse with the reference as oracle inside the target."""
+    from ..fuzz import run_atheris
+    res = run_atheris("poly", runs=runs, seed=ctx.seed)
+    ctx.cls("atheris_executions", res.get("executions", 0))
+    ctx.ev(res.get("executions", 0))
+    ctx.nontrivial("fuzz", 1)
+    ctx.nontrivial("fuzz", 2)
+    if res.get("skipped"):
+        ctx.note("atheris: " + res["skipped"])
+        return
+    for fnd in res.get("findings", []):
+        if fnd.get("kind") == "poly_pair":
+            check_poly_pair(ctx, fnd["a"], fnd["b"])
+        else:
+            check_field_pair(ctx, fnd["m"], fnd["a"], fnd["b"])
+            check_field_elem(ctx, fnd["m"], fnd["a"], exps=(fnd.get("e", 0),), minpoly=False)
+    ctx.sample({"fuzz_target": "poly", "executions": res.get("executions", 0), "findings": len(res.get("findings", []))})
+
+
 def check_case(ctx, cell, case):
     k = case["kind"]
     if k == "poly_pair":
@@ -350,4 +370,5 @@ def units(tier, seed):
         else:
             nm = 16 if T else 1
         us.append(Unit(f"field_gen_m{m}", "c18:unit_field_generated", {"m": m, "n_pairs": 3000 if T else 400, "n_minpoly": nm}, 5 + (m > 12) * 20))
+    us.append(Unit("fuzz_poly", "c18:unit_fuzz", {"runs": 2000000 if T else 100000}, 8))
     return us
